@@ -23,8 +23,22 @@ def gen_T05():
     fmt = [n for n in ast.walk(init) if isinstance(n, ast.Constant) and isinstance(n.value, str)
            and '%Y' in n.value]
     need(len(fmt) == 1 and fmt[0].value == '%Y-%m-%dT%H:%M:%S.%fZ', 'strptime format changed')
+    # __str__: the cache self._str must hold exactly the string that is returned (tags included), and be
+    # consulted first: the model's str_cached mirrors that shape
+    st = find_def(t, '__str__', 'IrcMsg')
+    body = [b for b in st.body if not (isinstance(b, ast.Expr) and isinstance(b.value, ast.Constant))]
+    need(len(body) >= 4 and ast.unparse(body[0]) == 'if self._str is not None:\n    return self._str',
+         'IrcMsg.__str__: cache lookup is not the first statement')
+    tail = [ast.unparse(b) for b in body[-3:]]
+    need(tail == ["if self.server_tags:\n    s = _format_server_tags(self.server_tags) + ' ' + s", 'self._str = s', 'return self._str'],
+         'IrcMsg.__str__: expected `if self.server_tags: s = tags + s; self._str = s; return self._str` at the end, found %r' % tail)
+    assigns = [n for n in ast.walk(st) if isinstance(n, ast.Assign) and any(ast.unparse(x) == 'self._str' for x in n.targets)]
+    need(len(assigns) == 1, 'IrcMsg.__str__: self._str assigned %d times' % len(assigns))
+    ln = find_def(t, '__len__', 'IrcMsg')
+    need(ast.unparse(ln.body[-1]) == 'return len(str(self))', 'IrcMsg.__len__ changed')
     out = 'Require Import Base.Wire.\n'
     out += 'Definition SERVER_TAG_ESCAPE : list (N * list N) :=\n  %s.\n' % clist(
         '(%d, %s)' % (ord(k), cstr(img)) for k, img in pairs)
+    out += 'Definition STR_CACHES_RETURNED_STRING : bool := true.\n'
     out += 'Definition PARSE_CATCHES : list exn := %s.\n' % clist(EXN[c] for c in caught)
     return 'src/ircmsgs.py', out
